@@ -120,9 +120,14 @@ def run_scenarios(binary, scn_path, out_path, nscn, timeout=900):
     return crashes
 
 
-def tlc(module, cfg, env=None, workers="1", timeout=900, extra=(), depthfirst=False):
+_runseq = 0
+
+
+def tlc(module, cfg, env=None, workers="1", timeout=900, extra=(), depthfirst=False, heap=None):
     """Runs TLC in a scratch copy of the spec directory; returns (stdout, stats)."""
-    run = os.path.join(WORK, "tlc", "run-%d-%d" % (os.getpid(), int(time.time() * 1000) % 100000000))
+    global _runseq
+    _runseq += 1
+    run = os.path.join(WORK, "tlc", "run-%d-%d-%d" % (os.getpid(), int(time.time() * 1000) % 100000000, _runseq))
     os.makedirs(run, exist_ok=True)
     for f in glob.glob(os.path.join(SPEC, "*.tla")) + glob.glob(os.path.join(SPEC, "*.cfg")):
         shutil.copy(f, run)
@@ -131,7 +136,9 @@ def tlc(module, cfg, env=None, workers="1", timeout=900, extra=(), depthfirst=Fa
         e.update(env)
     if depthfirst:
         e["JAVA_TOOL_OPTIONS"] = (e.get("JAVA_TOOL_OPTIONS", "") + " -Dtlc2.tool.queue.IStateQueue=StateDeque").strip()
-    cmd = ["tlc", "-workers", str(workers), "-metadir", os.path.join(run, "meta"), "-config", cfg] + list(extra) + [module]
+    jar = "/opt/veriftools/tla/tla2tools.jar:/opt/veriftools/tla/CommunityModules-deps.jar"
+    cmd = ["java", "-XX:+UseParallelGC"] + ([heap] if heap else []) + ["-cp", jar, "tlc2.TLC", "-workers", str(workers),
+           "-metadir", os.path.join(run, "meta"), "-config", cfg] + list(extra) + [module]
     try:
         r = subprocess.run(cmd, cwd=run, env=e, capture_output=True, text=True, timeout=timeout)
     except subprocess.TimeoutExpired:
@@ -151,10 +158,10 @@ def tlc(module, cfg, env=None, workers="1", timeout=900, extra=(), depthfirst=Fa
     return out, stats
 
 
-def monitor(trace_path, out_path):
+def monitor_one(trace_path, out_path):
     if os.path.exists(out_path):
         os.remove(out_path)
-    out, st = tlc("MonitorTrace.tla", "MonitorTrace.cfg", env={"TRACE": trace_path, "OUT": out_path}, timeout=1800)
+    out, st = tlc("MonitorTrace.tla", "MonitorTrace.cfg", env={"TRACE": trace_path, "OUT": out_path}, timeout=1800, heap="-Xmx3g")
     if not st.get("ok") or not os.path.exists(out_path):
         raise Inconclusive("monitor failed on %s:\n%s" % (trace_path, out[-4000:]))
     viol = []
@@ -163,6 +170,42 @@ def monitor(trace_path, out_path):
             line = line.strip()
             if line:
                 viol.append(json.loads(line))
+    return viol, st
+
+
+def monitor(trace_path, out_path, par=8, chunk_events=6000):
+    """Judges a trace file with MonitorTrace.tla; large files are split at scenario boundaries and
+    judged by several TLC processes in parallel (the monitor state is reset at every scenario)."""
+    chunks, cur, n = [], [], 0
+    with open(trace_path) as fh:
+        for line in fh:
+            if '"ev":"scn_begin"' in line and n >= chunk_events:
+                chunks.append(cur)
+                cur, n = [], 0
+            cur.append(line)
+            n += 1
+    if cur:
+        chunks.append(cur)
+    if len(chunks) <= 1:
+        return monitor_one(trace_path, out_path)
+    from concurrent.futures import ThreadPoolExecutor
+    paths = []
+    for k, c in enumerate(chunks):
+        cp = "%s.part%d" % (trace_path, k)
+        open(cp, "w").writelines(c)
+        paths.append(cp)
+    with ThreadPoolExecutor(max_workers=par) as ex:
+        res = list(ex.map(lambda cp: monitor_one(cp, cp + ".viol"), paths))
+    viol, st = [], {"distinct": 0, "generated": 0, "ok": True}
+    for (v, s1), cp in zip(res, paths):
+        viol += v
+        st["distinct"] += s1.get("distinct", 0)
+        st["generated"] += s1.get("generated", 0)
+        os.remove(cp)
+        os.remove(cp + ".viol")
+    with open(out_path, "w") as fh:
+        for v in viol:
+            fh.write(json.dumps(v) + "\n")
     return viol, st
 
 
